@@ -362,6 +362,28 @@ def extra_checks(rng, tier, g, info):
                         found += 1
                         yield r
     info["exhaustive_printable_substitutions"] = ex
+    # characters that only LOOK right to a str method: every character of the address (lower- and upper-case form)
+    # replaced by each non-ASCII character that lower()/upper()/casefold()/NFKC maps onto it or onto its other case
+    look = common.unicode_lookalikes()
+    nl = 0
+    for hrp, ver, prog in samples[:2 if tier == "quick" else 6]:
+        addr = b.encode(hrp, ver, prog)
+        if addr is None:
+            continue
+        for form in (addr, addr.upper()):
+            want = b.decode(hrp, form)
+            for j, ch in enumerate(form):
+                for target in {ch, ch.lower(), ch.upper()}:
+                    for sub in look.get(target, []):
+                        s2 = form[:j] + sub + form[j + 1:]
+                        nl += 1
+                        got = b.decode(hrp, s2)
+                        if got != (None, None):
+                            yield ("b32_dec %s %s" % (sx(hrp), sx(s2)),
+                                   "address with the non-ASCII character U+%04X in place of %r accepted as version %s"
+                                   % (ord(sub), ch, got[0]))
+                            break
+    info["unicode_lookalike_substitutions"] = nl
 
 
 def deep_search(rng, tier, g, cand):
